@@ -2079,3 +2079,30 @@ Proof. intros G P T. destruct (parse_inv _ _ _ G P) as (W & _). eapply tm_freed_
 Lemma c12_size img t pol t' out : good_img img -> parse img = Ok (RootFlash t, pol) ->
   tm pol t = Ok t' -> save pol t' = Ok out -> zlen out = zlen img.
 Proof. intros G P T S. exact (proj2 (c12_bytes_outside img t pol t' out G P T S)). Qed.
+
+(* ------------------------------------------------------------------ *)
+(* tighten_me inside a sequence of edits: the tree it meets is then not *)
+(* the result of a parse but whatever the edits before left; all it     *)
+(* needs is [wf_tree] (and [desc_bounds] for statements about bytes).   *)
+(* ------------------------------------------------------------------ *)
+
+Lemma tm_bytes_outside_tree pol t t' o o' : wf_tree t -> desc_bounds t ->
+  tm pol t = Ok t' -> save pol t = Ok o -> save pol t' = Ok o' ->
+  zskipn ifd_desc_len o' = zskipn ifd_desc_len o /\ zlen o' = zlen o.
+Proof.
+  intros W B T S S'.
+  pose proof (tm_wf _ _ _ W T) as W'. pose proof (tm_bounds _ _ _ W B T) as B'.
+  destruct (save_split _ _ _ W B S) as (_ & K1 & L1).
+  destruct (save_split _ _ _ W' B' S') as (_ & K2 & L2).
+  rewrite (tm_body _ _ _ W T) in K2, L2. split; congruence.
+Qed.
+
+Lemma tm_n_once pol n : forall t t1, wf_tree t -> tm pol t = Ok t1 ->
+  exists tn, tm_n n pol t1 = Ok tn /\ save pol tn = save pol t1.
+Proof.
+  induction n as [|k IH]; intros t t1 W T.
+  - exists t1. split; reflexivity.
+  - destruct (tm_idempotent_tree _ _ _ W T) as (t2 & T2 & S2).
+    destruct (IH t1 t2 (tm_wf _ _ _ W T) T2) as (tn & TN & SN).
+    exists tn. split; [cbn [tm_n]; rewrite T2; exact TN|congruence].
+Qed.
